@@ -25,6 +25,7 @@ class FindersProfile(StoreProfile):
 
     def params(self, rng, tier):
         p = super().params(rng, tier)
+        p["crowd"] = rng.random() < 0.1
         p["n_entities"] = rng.randint(3, 10 if tier == "quick" else 16)
         p["n_ops"] = rng.randint(6, 14 if tier == "quick" else 40)
         p["junk"] = rng.random() < 0.7
